@@ -41,7 +41,7 @@ TR = 'chainables.transform'
 
 
 def run(ctx: Ctx):
-  for r in (r1, r2, r3, r4, r5, r6, r9, r11):
+  for r in (r1, r2, r3, r4, r5, r6, r9, r11, r12):
     ctx.guard(r)
   from mlmverif.props import c09
   ctx.include('R-C12-10', 'error skipping configured on a data source survives a'
@@ -241,6 +241,57 @@ def r11(ctx: Ctx):
              ' pipeline for assign/filter/sink although skipping is enabled',
              node=rd.ast, witness=bad[-6:])
   ctx.floor(rule, 2, n)
+
+
+def r12(ctx: Ctx):
+  rule = 'R-C12-12'
+  ctx.rule(rule, '"the first error reaches the caller ..., iteration stops, sinks'
+           ' are closed": a sink closes in the `finally` of its own generator,'
+           ' which only runs when that generator is exhausted or CLOSED; when a'
+           ' later operator of the chain raises, the sink generator is merely'
+           ' suspended. The generator that drives the chain (_RunnerIterator\'s'
+           ' iter_fn) therefore collects the iterator of every stage and closes'
+           ' them in a `finally` around its `yield from`')
+  fi = ctx.repo.func(TR, '_RunnerIterator.__init__')
+  inner = None
+  for x in ast.walk(fi.node):
+    if isinstance(x, (ast.FunctionDef,)) and x is not fi.node and any(
+        isinstance(y, ast.YieldFrom) for y in ast.walk(x)):
+      inner = x
+  if inner is None:
+    raise AnalysisError(f'{rule}: the chain-driving generator was not found')
+  loops = [l for l in ast.walk(inner) if isinstance(l, ast.For) and 'fns' in unparse(l.iter)]
+  if not loops:
+    raise AnalysisError(f'{rule}: the loop over the operators was not found')
+  lp = loops[0]
+  # the list that receives every stage iterator
+  coll = None
+  for x in ast.walk(lp):
+    if isinstance(x, ast.Call) and isinstance(x.func, ast.Attribute) and x.func.attr == 'append' and isinstance(
+        x.func.value, ast.Name):
+      coll = x.func.value.id
+  yf = [x for x in ast.walk(inner) if isinstance(x, ast.YieldFrom)]
+  tries = [t for t in ast.walk(inner) if isinstance(t, ast.Try) and t.finalbody
+           and any(y in list(ast.walk(t)) for y in yf)]
+  closes = False
+  for t in tries:
+    for x in t.finalbody:
+      for y in ast.walk(x):
+        if isinstance(y, ast.For) and coll is not None and coll in unparse(y.iter) and any(
+            isinstance(c, ast.Call) and isinstance(c.func, ast.Attribute) and c.func.attr == 'close'
+            for c in ast.walk(y)):
+          closes = True
+  if coll is not None and closes:
+    ctx.ok(rule, FuncInfo(fi.module, f'{fi.qualname}.{inner.name}', inner, fi.cls),
+           f'every stage iterator is collected in `{coll}` and closed in a finally', inner)
+  else:
+    ctx.fail(rule, FuncInfo(fi.module, f'{fi.qualname}.{inner.name}', inner, fi.cls),
+             '_RunnerIterator iter_fn: close every stage iterator in a finally around `yield from`',
+             'when an operator behind a sink raises, nothing closes the suspended'
+             ' sink generator: Sink.iterate never reaches its `finally`, the sink'
+             ' stays open after the pipeline has failed (sink wrote [0..3],'
+             ' close() calls: 0)', node=yf[0] if yf else inner)
+  ctx.floor(rule, 1)
 
 
 # -- return-kind inference ----------------------------------------------------
@@ -572,6 +623,9 @@ from mlmverif.selfcheck import B, OK  # noqa: E402
 _F = 'chainables/tree_fns.py'
 _U = 'utils/iter_utils.py'
 VARIANTS = [
+    B('revert-close-stage-iterators', 'chainables/transform.py',
+      '      try:\n        yield from result\n      finally:\n        # Closes the upstream generators (e.g., a sink) when one of the\n        # functions fails or the iteration is abandoned.\n        for iterator in iterators:\n          if hasattr(iterator, \'close\'):\n            iterator.close()',
+      '      yield from result', 'R-C12-12'),
     B('revert-tee-placeholder-on-failing-read', 'utils/iter_utils.py',
       '    except Exception:\n      # Keeps the recital aligned with the outputs when an input fails: the\n      # failure takes up a slot (e.g., a skipped one) in the output iterator.\n      self._buffer.append(None)\n      raise\n',
       '', 'R-C12-11'),
